@@ -78,7 +78,7 @@ def emit_cases(ctx, ids, maxlen=3, langs=LANGS):
 
 def emit_values(ctx, ids, mode="values"):
     r = ctx.run_tlc("BuilderMC", "BuilderMC.cfg", workers=4, timeout=1500,
-                    constants={"Mode": '"%s"' % mode, "Ids": "{%s}" % ",".join(str(i) for i in ids)})
+                    constants={"Mode": '"%s"' % mode, "Ids": "{%s}" % ",".join(str(i) for i in ids), "Fuel": 4})
     vals = collections.defaultdict(list)
     n = 0
     for v in core.tagged_lines(r["out"], "VALUE"):
@@ -402,6 +402,12 @@ def veneer_yaml(entry, pkg):
             builders.append("  - promote_options_to_constructor:\n      by_object: %s\n      options: [%s]\n" % (r["obj"], ", ".join(r["fields"])))
         elif r["k"] == "unfold":
             options.append("  - struct_fields_as_options:\n      by_name: %s.%s\n      fields: [%s]\n" % (r["obj"], r["field"], ", ".join(r["fields"])))
+        elif r["k"] == "dup":
+            options.append("  - duplicate:\n      by_name: %s.%s\n      as: %s\n" % (r["obj"], r["field"], r["fields"][0]))
+        elif r["k"] == "renarg":
+            options.append("  - rename_arguments:\n      by_name: %s.%s\n      as: [%s]\n" % (r["obj"], r["field"], ", ".join(r["fields"])))
+        elif r["k"] == "bdup":
+            builders.append("  - duplicate:\n      by_name: %s\n      as: %s\n" % (r["obj"], r["field"]))
         elif r["k"] == "flavour":
             # several builders for one object: duplicate + initialize; the original builder is omitted after the last flavour
             builders.append("  - duplicate:\n      by_name: %s\n      as: %s\n      exclude_options: [%s]\n" % (r["obj"], r["field"], r["fields"][0]))
@@ -905,8 +911,11 @@ _SK = {"string": ("string", "bytes"), "bool": ("bool",), "int": ("int8", "int16"
 class Planner:
     """Turns a JV argument value into a call plan for one language of one unit."""
 
-    def __init__(self, entry, u, lang, bound):
+    def __init__(self, entry, u, lang, bound, variant=0):
         self.e, self.u, self.lang, self.bound = entry, u, lang, bound
+        # Where the generated API offers several equivalent ways (an option and its duplicate, a builder and its copy), variant k
+        # takes the k-th one; has_choice tells the caller that another variant would exercise other generated code.
+        self.variant, self.has_choice = variant, False
         self.S = entry["S"]
         self.ir = u["ir"][lang]
 
@@ -951,6 +960,11 @@ class Planner:
             irb = _ir_by_object(self.ir, shape["obj"])
             if irb is None:
                 raise BindError("no builder for object %s" % shape["obj"])
+            same = [b for b in self.ir if norm_name(b["object"]) == norm_name(irb["object"])]
+            if len(same) > 1 and not any(r["k"] == "flavour" for r in self.e["rules"]):
+                # a duplicated builder: identical options, another generated class
+                self.has_choice = True
+                irb = same[self.variant % len(same)]
             if irb["disjunction"]:
                 return {"k": "builder", "builder": self.union_plan(irb, key, t, v)}
             return {"k": "builder", "builder": self.struct_plan(irb, key, t, v)}
@@ -986,11 +1000,13 @@ class Planner:
         D = self.e["D"]
         new, promoted = [], set()
         cargs = [a for a in irb["ctor"]["asgs"] if a["arg"]]
-        for a, arg in zip(cargs, irb["ctor"]["args"]):
+        ctor0 = [sc.jv_to_py(x) for x in (self.e["B"][key]["ctor0"] if key in self.e["B"] else [])]
+        for j, (a, arg) in enumerate(zip(cargs, irb["ctor"]["args"])):
             f = a["path"][0]
             promoted.add(f)
             ft = field_of(t, f)["t"]
-            val = v[f] if f in v else D[key].get(f)
+            # a member the value does not give: the argument the default object was constructed with
+            val = v[f] if f in v else (ctor0[j] if j < len(ctor0) else D[key].get(f))
             new.append(self.arg(arg["shape"], key + "." + f, ft, val))
         calls = []
         sb = self.e["B"].get(key)
@@ -1004,7 +1020,9 @@ class Planner:
                 names = [o["name"] for o in (sb["opts"] if sb else []) if len(o["asgs"]) == 1 and o["asgs"][0]["path"] == path and o["asgs"][0]["m"] == "direct"]
                 if not sb and not prefix:
                     names = [mk]
-                hit = [o for o in irb["options"] if names and norm_name(o["name"]) == norm_name(names[0])]
+                if len(names) > 1:
+                    self.has_choice = True       # the option and its duplicate(s)
+                hit = [o for o in irb["options"] if names and norm_name(o["name"]) == norm_name(names[self.variant % len(names)])]
                 if len(hit) == 1 and len(hit[0]["args"]) == 1:
                     calls.append({"opt": self.opt_name(irb, hit[0]), "args": [self.arg(hit[0]["args"][0]["shape"], skey + "." + mk, f["t"], x)]})
                     continue
@@ -1051,18 +1069,13 @@ class Planner:
 
 
 def default_commands(entry, u, lang, bound):
-    """One command per type key: the freshly constructed builder (constructor arguments = the specification
-    default's values at the promoted paths)."""
+    """One command per type key: the freshly constructed builder (constructor arguments = a valid value of each
+    promoted option's type)."""
     pl = Planner(entry, u, lang, bound)
     cmds = {}
     for key in bound:
         sb = entry["B"][key]
-        vals = []
-        for a in sb["ctor"]["asgs"]:
-            v = entry["D"][key]
-            for seg in a["path"]:
-                v = v.get(seg) if isinstance(v, dict) else None
-            vals.append(v)
+        vals = [sc.jv_to_py(x) for x in sb["ctor0"]]    # valid arguments (Semantics!Base of each promoted option's type)
         c = pl.root_command(key, [], ctor_vals=vals)
         c["ctor_in_seq"] = False
         cmds[key] = c
